@@ -604,6 +604,8 @@ def h_work(prop, case, facts, kind="dfa", n=6, an=EITHER, timeout=1200, stubs=()
         unwind = max(unwind, mx + 2, max(st[5] for st in f["nnfa_states"]) + 3,
                      max([(st[2] + 3) // 4 for st in f["cnfa_states"] if st[1] == 0] + [1]) + 2)
     unsat = {"a failure link is followed"} if kind == "dfa" else set()
+    if not case.pf:
+        unsat.add("the prefilter scanned something")
     if any(len(x) == 0 for x in case.pats) and case.mk == "std":
         unsat.add("every byte of the span is consumed")
     h = Harness(name, case, body, unwind, schema, meta, timeout=timeout, functions=F_SEARCH + F_KIND[kind] + ["verif::count hooks"],
@@ -1337,6 +1339,7 @@ def _schedule(prop, tier, seed):
         cases.append(Case("c19std_ci", ["aAb", "ab"], mk="std", ci=True))
         cases.append(Case("c19lf_pf", ["abcq", "cdq"], mk="lf", pf=True))
         cases.append(Case("c19std_pfs", ["abc", "ab"], mk="std", pf=True))
+        cases.append(Case("c19std_pfr2", ["az", "bz", "cq", "dq"], mk="std", pf=True))
 
         def mk(facts):
             hs = []
